@@ -99,7 +99,8 @@ enum kind : int
   KIND_END,
   // only in the statically typed family (cannot wrap a type-erased parser)
   U_LEXEME = KIND_END,
-  L_REC // recursion to the root of the grammar (static family only)
+  L_REC, // recursion to the root of the grammar (static family only)
+  U_CONVERT_IF_FATAL // like U_CONVERT_IF, but the conversion function reports a FATAL error (static family only)
 };
 
 struct ast
@@ -123,6 +124,8 @@ inline std::string show(ast const &a)
     return "lexeme(" + show(a.c[0]) + ")";
   if (a.k == L_REC)
     return "<start>";
+  if (a.k == U_CONVERT_IF_FATAL)
+    return "convert_if_fatal(" + show(a.c[0]) + ")";
   if (a.k < UNARY_END)
     return std::string(kind_name(a.k)) + "(" + show(a.c[0]) + ")";
   return "(" + show(a.c[0]) + " " + kind_name(a.k) + " " + show(a.c[1]) + ")";
@@ -154,6 +157,7 @@ inline bool nullable(ast const &a)
   case U_IGNORE:
   case U_LEXEME:
   case U_CONVERT_IF: return nullable(a.c[0]);
+  case U_CONVERT_IF_FATAL: return nullable(a.c[0]);
   case U_LIST: return false;
   case B_SEQ: return nullable(a.c[0]) && nullable(a.c[1]);
   case B_ALT: return nullable(a.c[0]) || nullable(a.c[1]);
@@ -452,6 +456,13 @@ struct reference
       if (r.status != 0)
         return r;
       return r.val.find('b') != std::string::npos ? fail() : ok(r.pos, "<" + r.val + ">");
+    }
+    case U_CONVERT_IF_FATAL:
+    {
+      rres r = run(a.c[0], i, sk);
+      if (r.status != 0)
+        return r;
+      return r.val.find('b') != std::string::npos ? fatal() : ok(r.pos, "<" + r.val + ">");
     }
     case U_SEP:
     {
